@@ -2,17 +2,21 @@ package main
 
 import (
 	"fmt"
+	"os"
 
 	"github.com/jsightapi/jsight-schema-core/notations/jschema"
 )
 
 func main() {
-	for _, order := range [][]string{{"@usesT", "@t"}, {"@t", "@usesT"}} {
-		texts := map[string]string{"@usesT": `{"r": @t, "s": [@t, @t]}`, "@t": `"str" // {minLength: 1}`}
-		root := jschema.New("root", `{"a": 1}`)
-		for _, n := range order {
-			fmt.Println("AddType", n, root.AddType(n, jschema.New(n, texts[n])))
+	for _, t := range os.Args[1:] {
+		seen := map[string]int{}
+		for i := 0; i < 200; i++ {
+			err := jschema.New("root", t).Check()
+			seen[fmt.Sprint(err)]++
 		}
-		fmt.Println(order, "Check:", root.Check())
+		fmt.Printf("%q:\n", t)
+		for k, v := range seen {
+			fmt.Printf("  %3d x %.300q\n", v, k)
+		}
 	}
 }
